@@ -2707,6 +2707,10 @@ class Run(object):
 
     # ------------------------------------------------------------ entry point
     def run(self):
+        # names of fresh constants restart for every function: the verification conditions of a function are then the same text
+        # whatever was verified before in this process (solver run times depend on names and on the order they induce)
+        global _counter
+        _counter = itertools.count(1)
         eng = self.engine
         ct = self.contract
         st = State()
